@@ -152,11 +152,13 @@ type world struct {
 	fileContent map[blob.Ref][]byte
 	features    map[string]bool
 	now         time.Time
+	del         map[blob.Ref]bool // deletion status of every stored blob
 }
 
 func newWorld(id, template string) *world {
 	return &world{id: id, template: template, nodes: map[blob.Ref]*node{}, fileContent: map[blob.Ref][]byte{},
-		features: map[string]bool{}, now: time.Now()}
+		features: map[string]bool{}, now: time.Now(),
+		unknown: sto.FromBytes([]byte("verif C17: a blob that is in no store " + id)).Ref}
 }
 
 func (w *world) add(b sto.Blob, label string) blob.Ref {
@@ -170,8 +172,11 @@ func (w *world) add(b sto.Blob, label string) blob.Ref {
 }
 
 func (w *world) finish() {
-	w.unknown = sto.FromBytes([]byte("verif C17: a blob that is in no store " + w.id)).Ref
 	w.order = append(w.order, w.unknown)
+	w.del = map[blob.Ref]bool{}
+	for r := range w.nodes {
+		w.del[r] = w.computeDeleted(r)
+	}
 }
 
 func (w *world) label(r blob.Ref) string {
@@ -194,14 +199,16 @@ func (w *world) labels(chain []blob.Ref) string {
 
 // deleted implements doc/schema/delete.md on the stored blobs: x is deleted iff a stored
 // delete claim targets x and that delete claim is not itself deleted.
-func (w *world) deleted(x blob.Ref) bool {
+func (w *world) computeDeleted(x blob.Ref) bool {
 	for _, n := range w.nodes {
-		if n.typ == "claim" && n.claimType == "delete" && n.signed && n.target == x && !w.deleted(n.ref) {
+		if n.typ == "claim" && n.claimType == "delete" && n.signed && n.target == x && !w.computeDeleted(n.ref) {
 			return true
 		}
 	}
 	return false
 }
+
+func (w *world) deleted(x blob.Ref) bool { return w.del[x] }
 
 // verdict is the model's answer for one request chain.
 type verdict struct {
